@@ -151,6 +151,9 @@ func (c *Ctx) mck8() {
 						// appending to a slice of caller memory writes behind its length
 						if sl, isSl := x.Call.Args[0].(*ssa.Slice); isSl && callerRooted(sl.X, map[ssa.Value]bool{}, 0) {
 							a.failAt(c.P.Pos(x.Pos()), "append extends a re-slice of %s: the elements land in the test author's array", Expr(sl.X))
+						} else if pr, isParam := x.Call.Args[0].(*ssa.Parameter); isParam {
+							// (directly: with spare capacity the element is written into the caller's array)
+							a.failAt(c.P.Pos(x.Pos()), "append extends %s, the caller's own slice: with spare capacity the element lands in the caller's array, and the result is not the list that was meant", pr.Name())
 						} else {
 							a.pass()
 						}
